@@ -75,6 +75,83 @@ def balanced(seq):
     return d == 0
 
 
+def gen_wellformed(rng, n):
+    """a random well-formed kind sequence of about n tokens (independent little grammar)"""
+    def primary(budget, depth):
+        r = rng.random()
+        if budget >= 3 and depth < 3 and r < 0.25:
+            return ['('] + seq(budget - 2, depth + 1) + [')']
+        if budget >= 2 and r < 0.45:
+            return ['a'] + primary(budget - 1, depth)
+        return [rng.choice(['a', '1'])]
+
+    def unary(budget, depth):
+        out = []
+        while budget > 1 and rng.random() < 0.2:
+            out.append(rng.choice(['!', '-']))
+            budget -= 1
+        return out + primary(budget, depth)
+
+    def expr(budget, depth):
+        out = unary(max(1, budget // 2), depth)
+        while len(out) + 2 <= budget and rng.random() < 0.75:
+            out += [rng.choice(['?', '?', '-', '='])] + unary(max(1, (budget - len(out) - 1) // 2), depth)
+        return out
+
+    def seq(budget, depth):
+        out = expr(budget, depth)
+        while len(out) + 2 <= budget and rng.random() < 0.3:
+            out += ['~'] + expr(budget - len(out) - 1, depth)
+        return out
+    return seq(n, 0)
+
+
+def planted_defects(seed, lo, hi, count):
+    """well-formed sequences of lo..hi tokens with exactly one planted defect: dropped operand, dropped operator, stray operand, stray or
+    missing parenthesis, `( )` appended to an operand"""
+    rng = random.Random(seed ^ 0xdefec7)
+    out = []
+    tries = 0
+    while len(out) < count and tries < count * 30:
+        tries += 1
+        n = rng.randint(lo, hi)
+        w = gen_wellformed(rng, n)
+        if not wellformed(w) or not (lo - 1 <= len(w) <= hi + 1):
+            continue
+        k = rng.randrange(6)
+        s = list(w)
+        i = rng.randrange(len(s))
+        if k == 0:
+            ops = [j for j, t in enumerate(s) if t in ('a', '1')]
+            if not ops:
+                continue
+            del s[rng.choice(ops)]
+        elif k == 1:
+            ops = [j for j, t in enumerate(s) if t in ('?', '=')]
+            if not ops:
+                continue
+            del s[rng.choice(ops)]
+        elif k == 2:
+            s.insert(i, '1')
+        elif k == 3:
+            s.insert(i, rng.choice(['(', ')']))
+        elif k == 4:
+            ps = [j for j, t in enumerate(s) if t in ('(', ')')]
+            if not ps:
+                continue
+            del s[rng.choice(ps)]
+        else:
+            ops = [j for j, t in enumerate(s) if t == '1']
+            if not ops:
+                continue
+            j = rng.choice(ops)
+            s[j + 1:j + 1] = ['(', ')']
+        s = tuple(s)
+        if lo <= len(s) <= hi + 2 and not wellformed(s):
+            out.append(s)
+    return out
+
+
 def classify(seq):
     """role of an ill-formed sequence that was accepted (key for known findings)"""
     seq = list(seq)
@@ -319,6 +396,15 @@ def main():
     seqs = [s for n in range(1, N + 1) for s in itertools.product(ALPHA, repeat=n)]
     # only sequences the claim speaks about: ill-formed ones, and balanced ones (second clause)
     seqs = [s for s in seqs if (not wellformed(s)) or balanced(s)]
+    nexh = len(seqs)
+    # beyond the exhaustive bound: (a) one planted defect in longer well-formed sequences, (b) seed-chosen random longer sequences
+    longer = planted_defects(seed, N + 1, N + (3 if tier == 'quick' else 4), 900 if tier == 'quick' else 6000)
+    rng = random.Random(seed ^ 0x5eed)
+    for _ in range(600 if tier == 'quick' else 4000):
+        n = rng.randint(N + 1, N + 4)
+        longer.append(tuple(rng.choice(ALPHA) for _ in range(n)))
+    longer = [s for s in dict.fromkeys(longer) if (not wellformed(s)) or balanced(s)]
+    seqs += longer
     random.Random(seed).shuffle(seqs)
     chunk = 24
     units = [(seqs[i:i + chunk], timeout_ms, cvc5_rate, seed) for i in range(0, len(seqs), chunk)]
@@ -340,9 +426,9 @@ def main():
     results = checklib.run_units(checklib.safe_worker(unit), units)
     nill = sum(1 for s in seqs if not wellformed(s))
     checklib.finish(PID, results, t0=t0, replay_fn=replay_ce, exhaustive=True,
-                    rule='ALL %d token-kind sequences of length <= %d over {identifier, literal, BIN slot (13 non-minus binary operators), SEQ slot (2), ASG slot (9), (, ), !, -} that are '
+                    rule='(exhaustive part: %d sequences; beyond it %d seed-chosen longer sequences: one planted defect in a well-formed sequence, and random ones) ALL %d token-kind sequences of length <= %d over {identifier, literal, BIN slot (13 non-minus binary operators), SEQ slot (2), ASG slot (9), (, ), !, -} that are '
                          'ill-formed by the independent recogniser (%d) or balanced; slots are solver variables; per path: ill-formed => Err or a node of '
-                         'wrong arity (unbalanced => Err); balanced => never an unmatched-brace error' % (len(seqs), N, nill),
+                         'wrong arity (unbalanced => Err); balanced => never an unmatched-brace error' % (nexh, len(seqs) - nexh, nexh, N, nill),
                     explanation='bounded symbolic verification: tokens_to_operator_tree executed from MIR with symbolic operator/separator tokens over the complete '
                                 'set of kind sequences within the bound; the verdict per path is z3\'s over all slot assignments',
                     assumptions=['the recogniser (40-line grammar over kinds) defines ill-formedness; `1 = 2`-style assignments to non-identifiers are well-formed for it',
